@@ -8,7 +8,7 @@
 (***************************************************************************)
 EXTENDS Sodg, Json
 
-CONSTANT Extra      \* which of "clone", "reload", "slice", "inspect" are enabled
+CONSTANT Extra      \* which of "clone", "reload", "slice", "inspect", "deploy" are enabled
 
 \* the finite, named predicate family used for slice_some (shared with the harness)
 Preds == {[k |-> "all"], [k |-> "none"], [k |-> "lt"]}
@@ -44,7 +44,16 @@ Inspect(v) == /\ "inspect" \in Extra
               /\ v \in g.present /\ Reach(g, v, AllEdgesP) \subseteq g.present
               /\ g' = g /\ ev' = [op |-> "inspect", v |-> v, ret |-> InspectEdges(v)]
 
+\* deploy_to(): a script of the named family (SodgCore!ScriptFamily) deployed to the graph as it is - the fold of the
+\* mutators with a variable table of its own; inside the limits only
+Deploy(prog) == /\ "deploy" \in Extra
+                /\ LET r == DeployOp(g, prog) IN
+                   /\ r.lim
+                   /\ g' = r.g
+                   /\ ev' = [op |-> "deploy", prog |-> prog, ret |-> Len(prog)]
+
 NextX == \/ Next
+         \/ \E prog \in ScriptFamily(Ids, Labels, Vals) : Deploy(prog)
          \/ Clone \/ Reload
          \/ \E v \in Ids, p \in Preds : Slice(v, p)
          \/ \E v \in Ids : Inspect(v)
